@@ -68,6 +68,9 @@ def _case(draw, stratum):
         "M": M,
         "stream": stratum,
         "label": draw(st.sampled_from([None, "step"])),
+        # presentation of per-tip volumes: a list is documented; tuples / arrays are undetermined (accepted-and-
+        # consistent or rejected) - but an invalid volume inside them must still be refused
+        "vols_container": draw(st.sampled_from(["list", "list", "tuple", "ndarray"])),
     }
     if stratum == "order":
         twist = draw(st.sampled_from(["perm-wells", "perm-tips", "perm-both-same", "perm-both", "perm-both", "repeat-well", "repeat-tip", "tip-any", "reverse-both"]))
@@ -272,8 +275,17 @@ def check_case(case) -> Obs:
     wells = [wid(r, c) for r, c in case["wells"]]
     tips = [_sym(t) for t in case["tips"]]
     vols = [_v(x) for x in case["vols"]] if isinstance(case["vols"], list) else _v(case["vols"])
+    container = case.get("vols_container", "list")
     if isinstance(vols, list):
         obs.cls("per-tip-volumes")
+        if container == "tuple":
+            vols = tuple(vols)
+        elif container == "ndarray":
+            import numpy as np
+
+            vols = np.array(vols, dtype=float)
+        obs.cls("volumes-as-" + container)
+    undetermined_container = isinstance(case["vols"], list) and container != "list"
     wl = robotools.EvoWorklist(max_volume=M)
     pre = lw.volumes
     exc = None
@@ -284,12 +296,12 @@ def check_case(case) -> Obs:
     post = lw.volumes
     new = [r for r in wl if not r.startswith("C;")]
     stream = case["stream"]
-    desc = f"{case['kind']}(wells={wells}, tips={case['tips']}, volumes={case['vols']}, pos=({case['grid']},{case['site']}), arm={case['arm']}, lc={case['lc']!r}, max_volume={M}) on a {'trough' if trough else 'plate'} {rows}x{cols}"
+    desc = f"{case['kind']}(wells={wells}, tips={case['tips']}, volumes={case['vols']} as {container}, pos=({case['grid']},{case['site']}), arm={case['arm']}, lc={case['lc']!r}, max_volume={M}) on a {'trough' if trough else 'plate'} {rows}x{cols}"
     if exc is not None:
         obs.cls("rejected", "exc:" + type(exc).__name__)
         if new:
             obs.bad("C13/appended-on-reject", f"{desc} raised {type(exc).__name__} but appended {new}")
-        if stream == "core":
+        if stream == "core" and not undetermined_container:
             obs.bad("C13/valid-rejected", f"{desc} raised {type(exc).__name__}: {exc}")
         if stream == "order":
             obs.cls("either:rejected", "twist:" + case.get("twist", "?") + ":rejected")
@@ -333,6 +345,6 @@ def check_case(case) -> Obs:
         if abs(tracked - cmd) > 0.005 * max(1, nslots.get(idx, 1)) + 1e-9:
             obs.bad("C13/tracking-mismatch", f"{desc}: well {idx} changed by {tracked} in Labware.volumes, the command {new[0]!r} moves {cmd}")
             break
-    uniform = not isinstance(vols, list) or len(set(vols)) <= 1
+    uniform = not isinstance(case["vols"], list) or len(set(map(str, case["vols"]))) <= 1
     obs.nontrivial = stream == "order" or (len(wells) >= 2 and not uniform)
     return obs
